@@ -21,6 +21,8 @@ import XsdataModel.Proofs.C09NsRel
 import XsdataModel.Proofs.C09Infoset
 import XsdataModel.Proofs.C09XInclude
 import XsdataModel.Proofs.C09WsDeep
+import XsdataModel.Proofs.C09AttrDeep
+import XsdataModel.Proofs.C09WsDeepSimple
 
 namespace Props.C09
 open Py Xs.Bind Proofs.C09
@@ -95,6 +97,35 @@ theorem attrs_dict_order_witness :
       = some [("k2".toList, "w".toList), ("k1".toList, "v".toList)] := by
   decide
 
+/-! ## 1b. attribute order at every level of the document -/
+
+/-- **attr_order_invariant_deep**: for a universe in which every class satisfies `metaAttrDeep`
+(attribute entries with different names belong to different fields, no `Attributes` field, no
+wildcard field, and every element / choice field is bound by an `ElementNode` or a `PrimitiveNode`:
+`coreNoAny` — a class type, or neither `object` typed nor a wildcard choice, so that no
+`WildcardNode` / `StandardNode`, whose `AnyElement.attributes` keeps the document order, is ever
+created), permuting the attributes of *every* element of the document (`permRel`: names pairwise
+different) does not change what `NodeParser.parse` returns: both fail, or both succeed with the
+same object and the same number of warnings. -/
+theorem attr_order_invariant_deep (e : BEnv) (Γ : Ctx) (cfg : ParserConfig) (hΓ : ctxAll metaAttrDeep Γ = true)
+    (c : ClassId) (t t' : Tree) (h : permRel t t' = true) :
+    (parseRoot e Γ cfg c t).toOption = (parseRoot e Γ cfg c t').toOption :=
+  parseRoot_permRel e Γ cfg hΓ c t t' h
+
+/-- a universe of the kind: the class `Plain` alone (two attributes, two primitive elements) -/
+def plainCtx : Ctx := { Data.ctx with classes := [Data.plainClass], xsiIndex := [("Plain".toList, ["Plain".toList])] }
+
+/-- `<Plain b="v" a="7"><x>hello</x><y>true</y></Plain>`: `Data.plainDoc` with the attributes swapped -/
+def plainDocSwapped : Tree :=
+  .node "Plain".toList [("b".toList, "v".toList), ("a".toList, "7".toList)] [] none
+    [Data.leaf "x" (some "hello"), Data.leaf "y" (some "true")] none
+
+example : ctxAll metaAttrDeep plainCtx = true := by decide
+example : permRel Data.plainDoc plainDocSwapped = true := by decide
+example : Data.primOf (parseRoot Data.benv plainCtx {} "Plain".toList plainDocSwapped) "a" = some (.int 7) := by decide
+-- the universe with the `Attributes` class is outside the hypothesis (see `attrs_dict_order_witness`)
+example : ctxAll metaAttrDeep Data.ctx = false := by decide
+
 /-! ## 2. ignorable white space -/
 
 /-- element-only content: the class has no text field and no wildcard field -/
@@ -168,6 +199,31 @@ example : Data.primOf (parseRoot Data.benv Data.ctx {} "Plain".toList (indentDee
     = some (.bool true) := by decide
 -- significant text is not ignorable: `<x>hello</x>` vs `<x> hello</x>`
 example : wsRel Data.benv.py (Data.leaf "x" (some "hello")) (Data.leaf "x" (some " hello")) = false := by decide
+
+/-- **ws_invariant_deep_simple**: `ws_invariant_deep` for universes that also have simple-content
+classes (`simpleContent`: a text field and no element, choice, wildcard or wrapper to take a child
+element), under `fail_on_unknown_properties` (the default): such a class rejects its first child
+element whatever its text is, so indentation in front of it cannot be observed. -/
+theorem ws_invariant_deep_simple (e : BEnv) (Γ : Ctx) (cfg : ParserConfig) (hΓ : ctxAll textlessOrSimple Γ = true)
+    (hs : cfg.failOnUnknownProperties = true) (c : ClassId) (t t' : Tree) (h : wsRel e.py t t' = true) :
+    parseRoot e Γ cfg c t = parseRoot e Γ cfg c t' :=
+  parseRoot_wsRelS e Γ cfg hΓ hs c t t' h
+
+/-- `@dataclass class Amount: value: str (Text), a: Optional[int] (Attribute)` next to `Plain` -/
+def amountMeta : XmlMeta :=
+  { clazz := "Amount".toList, qname := "Amount".toList, targetQName := some "Amount".toList, nillable := false,
+    text := some (Data.mkVar 1 "value" .text [.prim .str]), choices := [], elements := [], wildcards := [],
+    attributes := [("a".toList, Data.vA)], anyAttributes := [], wrappers := [] }
+def amountCtx : Ctx :=
+  { Data.ctx with classes := [Data.plainClass,
+      { id := "Amount".toList, metas := [(none, amountMeta)], mro := ["Amount".toList], bases := [],
+        fields := [⟨"value".toList, true, some (.prim (.str []))⟩, ⟨"a".toList, true, some .none⟩] }] }
+example : ctxAll textlessOrSimple amountCtx = true := by decide
+example : ctxAll textless amountCtx = false := by decide
+example : ({} : ParserConfig).failOnUnknownProperties = true := rfl
+example : Data.primOf (parseRoot Data.benv amountCtx {} "Amount".toList
+    (.node "Amount".toList [("a".toList, "7".toList)] [] (some "12.50".toList) [] none)) "value" = some (.str "12.50".toList) := by
+  decide
 
 /-! ## 3. surrounding white space of non-string values
 
